@@ -5,6 +5,8 @@ CONSTANTS
   MaskByPosition = FALSE
   RawScriptFallback = FALSE
   MutClasses <- MutAll
-INVARIANTS Sound MutatedRejected SameSigners
+  PreOps <- PreAll
+  SkipIfSignedAddr = FALSE
+INVARIANTS Sound VerdictPure MutatedRejected SameSigners
 ACTION_CONSTRAINT Edge
 CHECK_DEADLOCK FALSE
